@@ -1,4 +1,4 @@
-//go:build verif
+//go:build verif && !verif_noshim
 
 // Exported one-line wrappers around private seams of package cmd, added to the
 // build by the /verif overlay only (never committed to the repository).
